@@ -637,6 +637,8 @@ Definition mint_ok (ts iv : bytes) (d : data) : Prop :=
 Definition wf_hop (o : hop data) : Prop :=
   match o with
   | HRegister d ts1 iv1 ts2 iv2 => mint_ok ts1 iv1 d /\ mint_ok ts2 iv2 d
+  | HAddSession d ts1 iv1 ts2 iv2 => mint_ok ts1 iv1 d /\ mint_ok ts2 iv2 d
+  | HPrefill r id d => decode O r ks id = Ok d     (* a pre-fill stores the id's own data *)
   | _ => True
   end.
 
@@ -656,7 +658,7 @@ Qed.
 
 Lemma hub_step_inv : forall h o, cache_inv h -> wf_hop o -> cache_inv (fst (hub_step O ks h o)).
 Proof.
-  intros h o H W. destruct o as [d ts1 iv1 ts2 iv2|sid|r id|id|r id]; cbn [hub_step].
+  intros h o H W. destruct o as [d ts1 iv1 ts2 iv2|sid|r id|id|r id|d ts1 iv1 ts2 iv2|r id d|r id|r id]; cbn [hub_step].
   - destruct W as [W1 W2].
     destruct (encode_private O ks ts1 iv1 d) as [priv|] eqn:E1; [|exact H].
     destruct (encode_public O ks ts2 iv2 d) as [pub|] eqn:E2; [|exact H]. cbn [fst].
@@ -669,6 +671,11 @@ Proof.
   - pose proof (hub_lookup_inv r h id H) as G. destruct (hub_lookup O ks r h id) as [h' o]. exact G.
   - pose proof (hub_lookup_inv Private h id H) as G. destruct (hub_lookup O ks Private h id) as [h' o]. exact G.
   - pose proof (hub_decode_inv r h id H) as G. destruct (hub_decode O ks r h id) as [h' o]. exact G.
+  - destruct (encode_private O ks ts1 iv1 d) as [priv|]; [|exact H].
+    destruct (encode_public O ks ts2 iv2 d) as [pub|]; exact H.
+  - cbn [fst]. apply hub_set_decoded_inv; assumption.
+  - cbn [fst]. apply hub_invalidate_inv. exact H.
+  - exact H.
 Qed.
 
 Fixpoint hub_run (h : hub) (ops : list (hop data)) : hub * list (hop data * hout data) :=
@@ -711,6 +718,7 @@ Fixpoint live_from (l : list (N * (bytes * bytes))) (tr : list (hop data * hout 
   match tr with
   | [] => l
   | (HRegister d _ _ _ _, HIds p q) :: r => live_from ((sid_of O d, (p, q)) :: session_del (sid_of O d) l) r
+  | (HAddSession d _ _ _ _, HIds p q) :: r => live_from ((sid_of O d, (p, q)) :: session_del (sid_of O d) l) r
   | (HRemove sid, _) :: r => live_from (session_del sid l) r
   | _ :: r => live_from l r
   end.
@@ -742,7 +750,7 @@ Proof.
   induction ops as [|o ops IH]; intro h; [reflexivity|]. cbn [hub_run].
   destruct (hub_step O ks h o) as [h1 v] eqn:S. specialize (IH h1).
   destruct (hub_run h1 ops) as [h2 tr]. cbn [fst snd] in *. rewrite IH. clear IH.
-  destruct o as [d ts1 iv1 ts2 iv2|sid|r id|id|r id]; cbn [hub_step] in S.
+  destruct o as [d ts1 iv1 ts2 iv2|sid|r id|id|r id|d ts1 iv1 ts2 iv2|r id d|r id|r id]; cbn [hub_step] in S.
   - destruct (encode_private O ks ts1 iv1 d) as [priv|]; [|injection S as <- <-; reflexivity].
     destruct (encode_public O ks ts2 iv2 d) as [pub|]; injection S as <- <-; [|reflexivity].
     cbn [live_from]. rewrite !hub_set_decoded_sessions. reflexivity.
@@ -755,6 +763,11 @@ Proof.
     cbn [fst] in G. rewrite G. destruct o; reflexivity.
   - pose proof (hub_decode_sessions r h id) as G. destruct (hub_decode O ks r h id) as [h' o]. injection S as <- <-.
     cbn [fst] in G. rewrite G. destruct o; reflexivity.
+  - destruct (encode_private O ks ts1 iv1 d) as [priv|]; [|injection S as <- <-; reflexivity].
+    destruct (encode_public O ks ts2 iv2 d) as [pub|]; injection S as <- <-; reflexivity.
+  - injection S as <- <-. cbn [live_from]. rewrite hub_set_decoded_sessions. reflexivity.
+  - injection S as <- <-. cbn [live_from]. rewrite hub_invalidate_sessions. reflexivity.
+  - injection S as <- <-. destruct (decode O r ks id); reflexivity.
 Qed.
 
 (* ---- the hub's decoder of a role (decodePrivateSessionId / decodePublicSessionId) ------------------------ *)
@@ -820,6 +833,146 @@ Theorem hub_role_separation_swap : forall ops h s s' d d', cache_inv h -> Forall
 Proof.
   intros ops h s s' d d' H W I I' R.
   exact (role_separation_swap_either O ks s s' d d' (hub_run_decode_sound _ _ _ _ _ H W I) (hub_run_decode_sound _ _ _ _ _ H W I') R).
+Qed.
+
+(* ---- the request paths that make ids, the cache operations by themselves, the codec asked directly -------- *)
+Definition codec_answer (r : role) (id : bytes) : hout data :=
+  match decode O r ks id with Ok d => HData d | Err _ => HNoData end.
+
+(* the codec the hub holds, asked directly (hub.cookie.DecodePrivate / DecodePublic) *)
+Lemma hub_codec_step : forall r h id, hub_step O ks h (HCodec r id) = (h, codec_answer r id).
+Proof. reflexivity. Qed.
+
+(* the hub's decoder of a role answers what the codec answers for that role, in every cache state
+   the invariant allows; the two need not be asked in the same state *)
+Theorem hub_decode_step_is_codec : forall r h h0 id, cache_inv h ->
+  snd (hub_step O ks h (HDecode r id)) = snd (hub_step O ks h0 (HCodec r id)).
+Proof.
+  intros r h h0 id H. cbn [hub_step snd]. pose proof (cache_transparent r h id H) as T.
+  destruct (hub_decode O ks r h id) as [h1 o]. cbn [snd] in *. rewrite T.
+  destruct (decode O r ks id); reflexivity.
+Qed.
+
+Lemma hub_run_in : forall (P : hop data -> hout data -> Prop),
+  (forall h o, cache_inv h -> wf_hop o -> P o (snd (hub_step O ks h o))) ->
+  forall ops h o v, cache_inv h -> Forall wf_hop ops -> In (o, v) (snd (hub_run h ops)) -> P o v.
+Proof.
+  intros P HP. induction ops as [|o0 ops IH]; intros h o v H W I; [destruct I|].
+  cbn [hub_run] in I. inversion W as [|? ? Wo Wr]; subst.
+  pose proof (hub_step_inv h o0 H Wo) as H1. pose proof (HP h o0 H Wo) as P0.
+  destruct (hub_step O ks h o0) as [h1 v0]. cbn [fst snd] in *.
+  destruct (hub_run h1 ops) as [h2 tr] eqn:R. cbn [snd] in I. destruct I as [I|I].
+  - injection I as <- <-. exact P0.
+  - apply (IH h1 o v H1 Wr). rewrite R. exact I.
+Qed.
+
+(* over histories (registrations, added virtual sessions, removals, pre-fills with the id's own data,
+   invalidations, lookups, decodes under either role, evictions): every answer of the hub's decoder
+   is the codec's answer for that role and that string ... *)
+Theorem hub_run_decode_is_codec : forall ops h r id v, cache_inv h -> Forall wf_hop ops ->
+  In (HDecode r id, v) (snd (hub_run h ops)) -> v = codec_answer r id.
+Proof.
+  intros ops h r id v H W I.
+  refine (hub_run_in (fun o v => match o with HDecode r id => v = codec_answer r id | _ => True end) _ ops h _ _ H W I).
+  intros h0 o H0 _. destruct o; try exact Logic.I.
+  rewrite (hub_decode_step_is_codec r0 h0 h0 id0 H0). reflexivity.
+Qed.
+(* ... so wherever a history asks both about the same string, they agree *)
+Theorem hub_run_hub_is_codec : forall ops h r id v v', cache_inv h -> Forall wf_hop ops ->
+  In (HDecode r id, v) (snd (hub_run h ops)) -> In (HCodec r id, v') (snd (hub_run h ops)) -> v = v'.
+Proof.
+  intros ops h r id v v' H W I I'. rewrite (hub_run_decode_is_codec ops h r id v H W I).
+  refine (hub_run_in (fun o v => match o with HCodec r id => codec_answer r id = v | _ => True end) _ ops h _ _ H W I').
+  intros h0 o _ _. destruct o; try exact Logic.I. reflexivity.
+Qed.
+
+(* the ids a request path hands out (hello: HRegister; addsession: HAddSession) decode, through the
+   codec and through the hub's decoder of their role, to the data they were minted for -- at any point
+   of the history, whether the entry was pre-filled, evicted, invalidated or never cached *)
+Definition mints (o : hop data) (d : data) : Prop :=
+  match o with
+  | HRegister d' _ _ _ _ | HAddSession d' _ _ _ _ => d' = d
+  | _ => False
+  end.
+Theorem hub_run_minted_decode : forall ops h o d p q, cache_inv h -> Forall wf_hop ops ->
+  In (o, HIds p q) (snd (hub_run h ops)) -> mints o d ->
+  decode O Private ks p = Ok d /\ decode O Public ks q = Ok d.
+Proof.
+  intros ops h o d p q H W I M.
+  refine (hub_run_in (fun o v => forall d p q, v = HIds p q -> mints o d ->
+            decode O Private ks p = Ok d /\ decode O Public ks q = Ok d) _ ops h _ _ H W I d p q eq_refl M).
+  clear. intros h o _ Wo d p q E M.
+  destruct o as [d' ts1 iv1 ts2 iv2| | | | |d' ts1 iv1 ts2 iv2| | |]; try destruct M; cbn [hub_step] in E;
+    destruct Wo as [W1 W2];
+    destruct (encode_private O ks ts1 iv1 d') as [priv|] eqn:E1; try discriminate;
+    destruct (encode_public O ks ts2 iv2 d') as [pub|] eqn:E2; try discriminate;
+    cbn [snd] in E; injection E as <- <-;
+    (split; [exact (encode_then_decode Private _ _ _ _ W1 E1) | exact (encode_then_decode Public _ _ _ _ W2 E2)]).
+Qed.
+Corollary hub_run_minted_hub_decode : forall ops h o d p q v v', cache_inv h -> Forall wf_hop ops ->
+  In (o, HIds p q) (snd (hub_run h ops)) -> mints o d ->
+  In (HDecode Private p, v) (snd (hub_run h ops)) -> In (HDecode Public q, v') (snd (hub_run h ops)) ->
+  v = HData d /\ v' = HData d.
+Proof.
+  intros ops h o d p q v v' H W I M I1 I2. destruct (hub_run_minted_decode ops h o d p q H W I M) as [D1 D2].
+  rewrite (hub_run_decode_is_codec ops h Private p v H W I1), (hub_run_decode_is_codec ops h Public q v' H W I2).
+  unfold codec_answer. rewrite D1, D2. split; reflexivity.
+Qed.
+
+(* a pre-fill with the id's own data keeps the invariant (one step; cache_sound has the histories) *)
+Theorem prefill_own_data_sound : forall r h id d, cache_inv h -> decode O r ks id = Ok d ->
+  cache_inv (fst (hub_step O ks h (HPrefill r id d))).
+Proof. intros r h id d H D. exact (hub_step_inv h (HPrefill r id d) H D). Qed.
+
+(* a pre-fill with any other data does not: the hub's decoder then answers that data, whatever the
+   codec says about the string (hypotheses: the string is not empty -- setDecodedSessionId and the
+   decoders ignore the empty string -- and there is a cache) *)
+Lemma lru_find_set : forall size k (v : data) c, lru_find k (lru_set size k v c) = Some v.
+Proof.
+  intros size k v c. unfold lru_set. destruct (lru_find k c) eqn:F.
+  - cbn. rewrite beqb_refl. reflexivity.
+  - destruct ((0 <? size)%nat && (size <? List.length ((k, v) :: c))%nat) eqn:B.
+    + destruct c as [|e c].
+      * exfalso. apply andb_prop in B. destruct B as [B1 B2]. apply Nat.ltb_lt in B1, B2. cbn in B2. lia.
+      * cbn [removelast]. cbn. rewrite beqb_refl. reflexivity.
+    + cbn. rewrite beqb_refl. reflexivity.
+Qed.
+Lemma nth_upd_nth : forall (A : Type) i (x d : A) l, (i < List.length l)%nat -> nth i (upd_nth i x l) d = x.
+Proof.
+  intros A i x d l. revert i. induction l as [|y l IH]; intros i L; [inversion L|].
+  destruct i; [reflexivity|]. cbn. apply IH. cbn in L. lia.
+Qed.
+Lemma upd_nth_length : forall (A : Type) i (x : A) l, List.length (upd_nth i x l) = List.length l.
+Proof.
+  intros A i x l. revert i. induction l as [|y l IH]; intro i; [destruct i; reflexivity|].
+  destruct i; cbn; [reflexivity|]. f_equal. apply IH.
+Qed.
+Lemma cache_index_lt : forall (h : hub) ck, caches h <> [] -> (cache_index h ck < List.length (caches h))%nat.
+Proof.
+  intros h ck NE. unfold cache_index.
+  assert (L : N.of_nat (List.length (caches h)) <> 0%N) by (destruct (caches h); [contradiction | cbn [List.length]; lia]).
+  pose proof (N.mod_lt (fnv32a ck) _ L) as M. lia.
+Qed.
+Theorem prefill_other_data_is_answered : forall r h id d', id <> [] -> caches h <> [] ->
+  snd (hub_step O ks (fst (hub_step O ks h (HPrefill r id d'))) (HDecode r id)) = HData d'.
+Proof.
+  intros r h id d' NI NC. cbn [hub_step fst]. unfold hub_set_decoded, hub_decode.
+  destruct id as [|c0 id0]; [contradiction|]. set (id := c0 :: id0). set (ck := cache_key id (role_name r)).
+  set (i := cache_index h ck). set (c := lru_set (csize h) ck d' (get_cache h i)).
+  assert (Ei : cache_index (with_cache h i c) ck = i).
+  { unfold cache_index, with_cache. cbn [caches]. rewrite upd_nth_length. reflexivity. }
+  rewrite Ei. unfold get_cache at 1. unfold with_cache at 1. cbn [caches].
+  rewrite nth_upd_nth by (apply cache_index_lt; exact NC).
+  unfold lru_get. unfold c at 1. rewrite lru_find_set. reflexivity.
+Qed.
+(* hence: if the data is not what the codec answers for the string, the hub's decoder and the codec
+   disagree right after the pre-fill (the cache is no longer transparent) *)
+Corollary prefill_other_data_refuted : forall r h id d', id <> [] -> caches h <> [] ->
+  decode O r ks id <> Ok d' ->
+  snd (hub_step O ks (fst (hub_step O ks h (HPrefill r id d'))) (HDecode r id)) <> codec_answer r id.
+Proof.
+  intros r h id d' NI NC D. rewrite (prefill_other_data_is_answered r h id d' NI NC). unfold codec_answer.
+  destruct (decode O r ks id) as [d|]; [|discriminate]. intro E. injection E as <-. exact (D eq_refl).
 Qed.
 
 End Hub.
